@@ -873,13 +873,20 @@ class Interp:
         falls_t = [o for o in res[0] if o[0] == "fall"]
         falls_f = [o for o in res[1] if o[0] == "fall"]
         others = [o for o in res[0] + res[1] if o[0] != "fall"]
-        if self.ctx.merge_enabled and len(falls_t) == 1 and len(falls_f) == 1:
+        if self.ctx.merge_enabled and len(falls_t) == 1 and len(falls_f) == 1 and self.small_enough(s):
             ft, ff = falls_t[0][1], falls_f[0][1]
             m = merge_two(c, ft, ff, k)
             if m is not None:
                 self.ctx.merges += 1
                 return [("fall", m, None)] + others
         return falls_t + falls_f + others
+
+    def small_enough(self, s):
+        lim = self.ctx.contract.options.get("merge_limit")
+        if lim is None:
+            return True
+        n = sum(1 for x in ast.walk(s) if isinstance(x, ast.stmt))
+        return n <= lim
 
     # ---- loops
     def st_For(self, s, st):
@@ -892,7 +899,7 @@ class Interp:
 
     # ------------------------------------------------------------------ merging
     def merge_states(self, states):
-        if len(states) <= 1 or not self.ctx.merge_enabled:
+        if len(states) <= 1 or not self.ctx.merge_enabled or self.ctx.contract.options.get("merge_limit") is not None:
             return states
         m = try_merge(states)
         if m is None:
